@@ -498,6 +498,10 @@ func vfC05Check(c vfC05Case) error {
 			if s.ev.UseTLS && ev.CertEcho != "CERT-OF-"+s.ev.Identity {
 				return verifkit.Violf("wrong-certificate", "%q: request carries certificate %q, the server presented %q\n%s", name, ev.CertEcho, "CERT-OF-"+s.ev.Identity, describe())
 			}
+		} else if c.Mode == "client" && uint(ev.Alive) > c.MaxServers {
+			// the servers are the runner's own in-process reference servers: the client dials every address it was ever
+			// given; more listening ones than --max-servers means more server instances alive at once
+			return verifkit.Violf("too-many-servers-client-mode", "%q: %d server addresses accept connections at once, --max-servers is %d\n%s", name, ev.Alive, c.MaxServers, describe())
 		} else if strings.HasPrefix(ev.Identity, "dial-error") && !strings.HasPrefix(p.tuple, "1/3/") && !strings.HasPrefix(p.tuple, "3/3/") && !strings.HasPrefix(p.tuple, "2/3/") {
 			return verifkit.Violf("no-live-server", "%q: the server port %d was not reachable when the request was handed over: %s\n%s", name, ev.Port, ev.Identity, describe())
 		}
@@ -527,6 +531,13 @@ func TestVerifC05Dispatch(t *testing.T) {
 			c := vfC05Case{Mode: rapid.SampledFrom([]string{"both", "both", "client", "server"}).Draw(t, "mode"), Config: rapid.SampledFrom(configs).Draw(t, "config"),
 				MaxServers: uint(rapid.IntRange(1, 4).Draw(t, "maxServers")), Order: rapid.SampledFrom([]string{"immediate", "reverse-pairs"}).Draw(t, "order"),
 				Procs: rapid.SampledFrom([]int{1, 2, 16}).Draw(t, "procs")}
+			if c.Mode == "client" {
+				// the servers are in-process reference servers of two kinds (connect-go and grpc-go), visible only through
+				// the addresses the client is sent to: answers held back to the end of a batch keep a batch's server alive
+				// while the runner moves on, and a small --max-servers makes any overlap exceed the bound
+				c.Order = rapid.SampledFrom([]string{"immediate", "reverse-pairs", "at-end", "at-end"}).Draw(t, "clientOrder")
+				c.MaxServers = uint(rapid.IntRange(1, 2).Draw(t, "clientMaxServers"))
+			}
 			c.Corpus = rapid.IntRange(0, 2).Draw(t, "corpus") == 0
 			if !c.Corpus {
 				modeNum := map[string]int32{"both": 0, "client": 1, "server": 2}[c.Mode]
@@ -607,4 +618,39 @@ func vfFailedText(out, name string) string {
 func vfSameServerKind(tuple, faultTuple string) bool {
 	a, b := strings.Split(tuple, "/"), strings.Split(faultTuple, "/")
 	return len(a) >= 3 && len(b) >= 3 && a[0] == b[0] && a[1] == b[1] && a[2] == b[2]
+}
+
+// TestVerifC05ClientKinds: client mode over the embedded corpus, where the runner itself starts in-process
+// reference servers of two kinds (connect-go, then grpc-go) one kind after the other. The scripted client holds its
+// answers to the end of each batch and dials every server address it has been given: the hand-over between the two
+// kinds must respect --max-servers like any other moment. Small fixed table, same oracle as the random unit.
+func TestVerifC05ClientKinds(t *testing.T) {
+	en := verifkit.NewEnum(t, "C05ClientKinds")
+	var replay vfC05Case
+	if en.ReplayCase(&replay) {
+		if err := verifkit.SafeCall(func() error { return vfC05Check(replay) }); err != nil {
+			en.Fail(replay, err)
+		}
+		en.Done(false)
+		return
+	}
+	var rows []vfC05Case
+	for _, maxServers := range []uint{1, 2} {
+		for _, order := range []string{"at-end", "immediate"} {
+			rows = append(rows, vfC05Case{Mode: "client", Config: "default", Corpus: true, MaxServers: maxServers, Order: order, Procs: 4, Generalise: []int{0, 0, 0, 0, 0}})
+		}
+	}
+	shard, shards := verifkit.Shard()
+	for i, c := range rows {
+		if i%shards != shard {
+			continue
+		}
+		err := verifkit.SafeCall(func() error { return vfC05Check(c) })
+		cl, _ := vfC05Classify(c)
+		en.Rec.Observe(c, append(cl, "order:"+c.Order, fmt.Sprintf("maxServers:%d", c.MaxServers)), true)
+		if err != nil {
+			en.Fail(c, err)
+		}
+	}
+	en.Done(true)
 }
